@@ -422,6 +422,52 @@ func init() {
 		i.bigPut(args[0].(*value), i.tt.False, i.tt.ZExt(t, i.bigW()))
 		return tuple{args[0], true}
 	})
+	reg("Bytes", func(fr *frame, args []value) value {
+		i := fr.i
+		x := args[0].(*value)
+		if !bigAnySym(i, x) {
+			return notHandled{}
+		}
+		xv := i.bigGet(x)
+		tt := i.tt
+		W := i.bigW()
+		// number of significant bytes: case split over its feasible values
+		nb := tt.Const(64, 0)
+		for k := 0; k < W/8; k++ {
+			nz := tt.Not(tt.Eq(tt.Extract(xv.abs, 8*k+7, 8*k), tt.Const(8, 0)))
+			nb = tt.Ite(nz, tt.Const(64, uint64(k+1)), nb)
+		}
+		n := int(i.concretize(nb, "big.Int.Bytes length"))
+		out := make([]value, n)
+		for k := 0; k < n; k++ {
+			out[n-1-k] = i.mkval(tt.Extract(xv.abs, 8*k+7, 8*k), types.Uint8)
+		}
+		return out
+	})
+	reg("SetBytes", func(fr *frame, args []value) value {
+		i := fr.i
+		buf := args[1].([]value)
+		anySym := false
+		for _, b := range buf {
+			if isSym(b) {
+				anySym = true
+			}
+		}
+		if !anySym {
+			return notHandled{}
+		}
+		W := i.bigW()
+		if len(buf)*8 > W {
+			panic(engineError(fmt.Sprintf("big.Int model width %d exceeded by SetBytes of %d bytes", W, len(buf))))
+		}
+		var t *Term
+		for _, b := range buf {
+			bt, _ := i.termOf(b)
+			t = i.tt.Concat(t, bt)
+		}
+		i.bigPut(args[0].(*value), i.tt.False, i.tt.ZExt(t, W))
+		return args[0]
+	})
 	reg("BitLen", func(fr *frame, args []value) value {
 		i := fr.i
 		x := args[0].(*value)
